@@ -337,6 +337,13 @@ unsigned int ShowNetNode::BuildCompressedPacket(shownet_packet *packet,
     OLA_WARN << "Failed to encode all data (used " << enc_len << " bytes";
   }
 
+  // A block whose length equals its slot count is taken as raw (uncompressed)
+  // data by the receiver, so a frame that happens to encode to exactly that
+  // many bytes has to be sent raw.
+  if (enc_len == buffer.Size()) {
+    buffer.Get(compressed_dmx->data, &enc_len);
+  }
+
   compressed_dmx->indexBlock[0] = HostToLittleEndian(
       static_cast<uint16_t>(MAGIC_INDEX_OFFSET));
   compressed_dmx->indexBlock[1] = HostToLittleEndian(
